@@ -13,6 +13,7 @@ import (
 	"time"
 
 	"github.com/relab/gorums"
+	"pgregory.net/rapid"
 
 	"verif/puppet"
 	"verif/scen"
@@ -56,6 +57,9 @@ type Case struct {
 	// call must have returned while the handlers are still held, and the manager's
 	// goroutines must be gone (C12).
 	CloseCheck bool `json:"close_check,omitempty"`
+	// Jitter arms the schedule perturbation of the instrumented overlay for this
+	// case (ignored when the overlay is not in use).
+	Jitter *Jitter `json:"jitter,omitempty"`
 	// EndCheck: after the threads are done every call must have ended although
 	// the gated handlers stay blocked (C07: calls waiting for nodes whose
 	// connection broke are completed); results in Result.HungAfterClose.
@@ -65,6 +69,29 @@ type Case struct {
 	// Drain: before pending calls are cancelled at the end, wait until every
 	// targeted server has entered every call (programs without failures).
 	Drain bool `json:"drain,omitempty"`
+}
+
+// Jitter is a seeded schedule perturbation: at every statement of the
+// instrumented runtime, yield with probability Gosched/65536 or sleep up to
+// MaxSleepUs with probability Sleep/65536.
+type Jitter struct {
+	Seed       uint64 `json:"seed"`
+	Gosched    uint32 `json:"gosched"`
+	Sleep      uint32 `json:"sleep"`
+	MaxSleepUs int    `json:"max_sleep_us"`
+}
+
+// GenJitter draws a perturbation (nil in about half of the cases).
+func GenJitter(t *rapid.T) *Jitter {
+	if rapid.Bool().Draw(t, "jitter") {
+		return nil
+	}
+	return &Jitter{
+		Seed:       rapid.Uint64().Draw(t, "jitterSeed"),
+		Gosched:    rapid.SampledFrom([]uint32{0, 600, 3000, 12000}).Draw(t, "jitterGosched"),
+		Sleep:      rapid.SampledFrom([]uint32{0, 30, 150, 600}).Draw(t, "jitterSleep"),
+		MaxSleepUs: rapid.SampledFrom([]int{20, 200, 1000}).Draw(t, "jitterMaxSleepUs"),
+	}
 }
 
 // CallInfo describes an issued call to the oracles.
@@ -152,6 +179,10 @@ func Run(c Case, h Hooks) Result {
 	if c.GoMaxProcs > 0 {
 		old := runtime.GOMAXPROCS(c.GoMaxProcs)
 		defer runtime.GOMAXPROCS(old)
+	}
+	if c.Jitter != nil && gorums.VerifSchedHook != nil && (c.Jitter.Gosched > 0 || c.Jitter.Sleep > 0) {
+		gorums.VerifSchedHook(c.Jitter.Seed, c.Jitter.Gosched, c.Jitter.Sleep, time.Duration(c.Jitter.MaxSleepUs)*time.Microsecond)
+		defer gorums.VerifSchedHook(0, 0, 0, 0)
 	}
 	cl := scen.NewCluster(c.N, c.RecvBuffer)
 	res.Cluster = cl
